@@ -458,3 +458,57 @@ proofs! { c10_sample_u8_l6 => 10, 3, [h_sample::<u8, 6>()]; }
 //@ bounds: arbitrary valid state of length 4 (signed weight type), every word stream
 //@ assumes: state invariant (C09)
 proofs! { c10_sample_i8_l4 => 10, 3, [h_sample::<i8, 4>()]; }
+
+// ------------------------------------------------------------------------------------------
+// float weights: the documented guarantee "sample will not panic if is_valid() returns true"
+// ------------------------------------------------------------------------------------------
+macro_rules! c10_tree_float {
+    ($name:ident, $f:ty, $l:expr, $mode:expr) => {
+        #[kani::proof]
+        #[kani::unwind(6)]
+        fn $name() {
+            let mut rng = SymRng::new(1); // all symbolic inputs are drawn first (replay alignment)
+            let ws: [$f; $l] = kani::any();
+            let mut i = 0;
+            while i < $l {
+                kani::assume(ws[i] >= 0.0 && ws[i] <= 1e30);
+                i += 1;
+            }
+            // region of the recorded finding tree_float_assert: the weights are not all representable sums
+            // (some weight is not an integer below 2^20, so that subtotals round)
+            let mut exact = true;
+            let mut i = 0;
+            while i < $l {
+                if !(ws[i] <= 1048576.0 && ws[i] == (ws[i] as u32) as $f) { exact = false; }
+                i += 1;
+            }
+            if $mode == 0 { kani::assume(exact); } else { kani::assume(!exact); }
+            let t = match WeightedTreeIndex::<$f>::new(&ws) { Ok(t) => t, Err(_) => return };
+            if t.is_valid() {
+                let r = t.try_sample(&mut rng);
+                vassert!(r.is_ok(), "tree<float>: try_sample failed although is_valid()");
+                let idx = r.unwrap();
+                vassert!(idx < $l, "tree<float>: index out of range");
+                vassert!(ws[idx] > 0.0, "tree<float>: returned an index of weight zero");
+                kani::cover!(idx == $l - 1, "last index sampled");
+            }
+            core::mem::forget(t);
+        }
+    };
+}
+//@ id: c10_tree_f32_l3_exact
+//@ prop: C10
+//@ tier: quick
+//@ cap: 900
+//@ funcs: WeightedTreeIndex::<f32>::new; try_sample (incl. its two internal assert!s); get; rand UniformFloat::<f32>::sample_single
+//@ bounds: 3 f32 weights that are integers <= 2^20 (all subtotals exact); every word
+//@ assumes: weights outside this class are the region of known finding tree_float_assert (decided by the witness harness)
+c10_tree_float!(c10_tree_f32_l3_exact, f32, 3, 0);
+//@ id: c10_tree_f32_l3_kf_rounding
+//@ prop: C10
+//@ tier: quick
+//@ cap: 900
+//@ expect: fail
+//@ funcs: WeightedTreeIndex::<f32>::try_sample
+//@ bounds: 3 f32 weights in [0, 1e30], not all small integers
+c10_tree_float!(c10_tree_f32_l3_kf_rounding, f32, 3, 1);
